@@ -247,6 +247,17 @@ func samplers() []samplerDef {
 	add("rules-untyped-span-scope-ge1.5-and-lt200", "rules/untyped", ruleSampler("span", cond("n", ">=", 1.5, ""), cond("n", "<", 200, "")))
 	add("rules-untyped-root-eq-200", "rules/untyped", ruleSampler("", cond("root.n", "=", 200, "")))
 	add("rules-float-root-ge-1.5", "rules/float", ruleSampler("", cond("root.n", ">=", 1.5, "float")))
+	// a non-root field with a root. fallback: spans without "m" resolve to the root's "n"
+	mixed := func(scope string) func() *config.V2SamplerChoice {
+		return func() *config.V2SamplerChoice {
+			return &config.V2SamplerChoice{RulesBasedSampler: &config.RulesBasedSamplerConfig{Rules: []*config.RulesBasedSamplerRule{
+				{Name: "match", SampleRate: 1, Scope: scope, Conditions: []*config.RulesBasedSamplerCondition{{Fields: []string{"m", "root.n"}, Operator: "=", Value: 200}}},
+				{Name: "fallthrough", Drop: true},
+			}}}
+		}
+	}
+	add("rules-untyped-fields-m-then-root.n-eq-200", "rules/untyped", mixed(""))
+	add("rules-untyped-span-scope-fields-m-then-root.n-eq-200", "rules/untyped", mixed("span"))
 	add("rules-exists-then-dynamic", "rules+dynamic", func() *config.V2SamplerChoice {
 		return &config.V2SamplerChoice{RulesBasedSampler: &config.RulesBasedSamplerConfig{Rules: []*config.RulesBasedSamplerRule{
 			{Name: "dyn", Conditions: []*config.RulesBasedSamplerCondition{cond("n", "exists", nil, "")},
@@ -367,7 +378,13 @@ func spanFields(it item, si int) []codec.Field {
 	if si != 0 {
 		fields = append(fields, codec.F("trace.parent_id", codec.Str(rootSpanID)))
 	}
-	return append(fields, codec.F("n", wireValue(v, e)), codec.F("sid", codec.Str(fmt.Sprintf("s%d", si))))
+	fields = append(fields, codec.F("n", wireValue(v, e)), codec.F("sid", codec.Str(fmt.Sprintf("s%d", si))))
+	if si != 0 && si == len(it.p.Vals)-1 {
+		// the last non-root span also carries the value under "m": conditions on Fields [m, root.n] then resolve
+		// differently per span (own field / fallback to the root's), which is where arrival order could leak in
+		fields = append(fields, codec.F("m", wireValue(v, e)))
+	}
+	return fields
 }
 
 func otlpSpan(it item, si int) codec.OTLPSpan {
@@ -379,6 +396,9 @@ func otlpSpan(it item, si int) codec.OTLPSpan {
 		Attrs: []codec.Field{codec.F("n", wireValue(values[it.p.Vals[si]], enc{})), codec.F("sid", codec.Str(fmt.Sprintf("s%d", si)))}}
 	if si != 0 {
 		sp.ParentSpanID = []byte{1, 2, 3, 4, 5, 6, 7, 1}
+		if si == len(it.p.Vals)-1 {
+			sp.Attrs = append(sp.Attrs, codec.F("m", wireValue(values[it.p.Vals[si]], enc{})))
+		}
 	}
 	return sp
 }
